@@ -320,10 +320,7 @@ def quaternion_to_rotation_matrix(quaternion: torch.Tensor) -> torch.Tensor:
             one - (txx + tyy),
         ),
         dim=-1,
-    ).view(-1, 3, 3)
-
-    if len(quaternion.shape) == 1:
-        matrix = torch.squeeze(matrix, dim=0)
+    ).view(quaternion.shape[:-1] + (3, 3))
     return matrix
 
 
